@@ -141,13 +141,47 @@ let () =
             let rel = String.sub f (String.length sb + 1) (String.length f - String.length sb - 1) in
             (f, join db rel)) (split_on ',' (get kv "files" "-"))
       else [(join sb sr, join db (if dr = "" then sr else dr))] in
-    if globbed && jobs = [] then obs "clicopy %s" (if textout kv = ToBad then "err" else "notexist")
-    else
-      run_world "clicopy" kv (List.concat_map (fun (s, d) -> [s; d]) jobs)
-        (fun long w id ns dflt -> run_copies flocq_fops long o w (List.map (fun (s, d) -> (id s, id d)) jobs) ns dflt)
-        (List.map snd jobs);
-    (* probe=1: the copy is one session on its destination (locked for as long as the source is fetched) *)
-    if geti kv "probe" 0 = 1 && geti kv "remote" 0 = 1 then obs "clicopy-held held");
+    (* intruder=: another session on the destination, started while the source was being fetched.  It read the
+       slot "watch" and then wrote its points.  If what it read is what the destination held before the copy,
+       it came first and the copy worked on its result; otherwise it came after the copy.  Either way the
+       sessions were serial: the file is the outcome of that order. *)
+    let intr = get kv "intruder" "" in
+    let run_intruder () =
+      let dname = snd (List.hd jobs) in
+      match lookup dname with
+      | None -> "openerr"
+      | Some h ->
+        (match reopen h with
+         | None -> "openerr"
+         | Some h0 ->
+           let inow = z_of_dec (get kv "inow" "0") and w = z_of_dec (get kv "watch" "0") in
+           let seen = match h_fetch h0 Z0 (Z.sub w (z_of_int 1)) w inow with
+             | FSeries s -> (match s.s_vals with [v] -> show_val v | _ -> "fetcherr") | _ -> "fetcherr" in
+           let pts = List.map (fun tv -> match String.split_on_char ':' tv with
+               | [t; v] -> { p_time = z_of_dec t; p_val = z_of_hex v } | _ -> failwith "intruder") (split_on ',' intr) in
+           let (h1, _) = h_update_many flocq_fops h0 pts Z0 inow in
+           set_file dname (Some (sync h1)); seen) in
+    let run_copy () =
+      if globbed && jobs = [] then obs "clicopy %s" (if textout kv = ToBad then "err" else "notexist")
+      else
+        run_world "clicopy" kv (List.concat_map (fun (s, d) -> [s; d]) jobs)
+          (fun long w id ns dflt -> run_copies flocq_fops long o w (List.map (fun (s, d) -> (id s, id d)) jobs) ns dflt)
+          (List.map snd jobs) in
+    if intr = "" || geti kv "remote" 0 <> 1 then run_copy ()
+    else begin
+      let isaw = get kv "isaw" "-" in
+      let before = (match lookup (snd (List.hd jobs)) with
+          | Some h -> (match reopen h with
+              | Some h0 -> (match h_fetch h0 Z0 (Z.sub (z_of_dec (get kv "watch" "0")) (z_of_int 1)) (z_of_dec (get kv "watch" "0")) (z_of_dec (get kv "inow" "0")) with
+                  | FSeries s -> (match s.s_vals with [v] -> show_val v | _ -> "?") | _ -> "?")
+              | None -> "?")
+          | None -> "?") in
+      if isaw = before then begin
+        let seen = run_intruder () in run_copy (); obs "clicopy-intruder saw=%s" seen
+      end else begin
+        run_copy (); let seen = run_intruder () in obs "clicopy-intruder saw=%s" seen
+      end
+    end);
   let diff_model op tk =
     let kv = kv_of tk in
     apply_live kv;
@@ -177,10 +211,11 @@ let () =
   register "cliexit" (diff_model "cliexit");
   register "clisum" (fun tk ->
     let kv = kv_of tk in
-    (* probe=1: a read-only command holds none of its files when it returns *)
+    (* again=1: the same sum repeated at once gives the same verdict (with the report discarded) *)
     let emit_readonly op kv st recs =
       emit_readonly op kv st recs;
-      if geti kv "probe" 0 = 1 && geti kv "remote" 0 = 0 && get kv "hold" "" = "" then obs "clisum-held 0" in
+      if geti kv "again" 0 = 1 && geti kv "remote" 0 = 0 && get kv "hold" "" = "" then
+        obs "clisum-again %s" (status_str st) in
     let items = parse_items kv in
     let ns = nows kv in
     let aid = getz kv "archive" (-1) and from = getz kv "from" 0 and until = getz kv "until" 0 in
@@ -426,9 +461,9 @@ let () = register "clinewline" (fun _ -> obs "clinewline local=ok remote=ok")
 (* cliabort: a client that went away; nothing to predict but that the run goes on *)
 let () = register "cliabort" (fun _ -> obs "cliabort done")
 
-(* cligenheld: generate holds the file it creates for the whole command.  (Its report goes to a FIFO, which
-   cannot be fsync'ed: the command does its work and then reports that error of the text-out writer.) *)
-let () = register "cligenheld" (fun _ -> obs "cligenheld err held")
+(* cligen2: two generate commands for the same missing path, overlapping: generate never replaces a file
+   that is there, so one succeeds and the other reports an error *)
+let () = register "cligen2" (fun _ -> obs "cligen2 err ok")
 
 (* hremote kind= len=N body=HEX: the client reads what arrives: fewer bytes than announced is an error, exactly
    the announced bytes decode as any answer does; it allocates in proportion to what arrived *)
